@@ -59,15 +59,27 @@ def fresh_locks():
 def render(desc, eager):
     """desc: {"classes": [{"attrs": [[name, form, dk, init, repr, cmp, typ]], "key": n|None,
     "frozen": b, "new": b}], "sub": None | {"new": b}}"""
-    out = ["import dataclasses", "from typing import List", "from spec_classes import spec_class, Attr", ""]
+    out = ["import dataclasses", "from typing import List", "from spec_classes import spec_class, Attr, spec_property", ""]
     NAMES = names_of(desc)  # noqa: N806 - per-description attribute names
 
     def new_def(tag):
-        # parameter names that cannot collide with an attribute name handed over as keyword
+        # parameter names that cannot collide with an attribute name handed over as keyword.
+        # The arguments are USED: handed on to the next __new__ of the MRO (unless that is
+        # object.__new__, which refuses them) and recorded on the instance (`_got`), so the
+        # observation says what every user-defined __new__ received, positionally and by keyword.
         return ["    def __new__(_cls_, *_a_, **_k_):",
-                "        self = super().__new__(_cls_)",
+                "        _up_ = super().__new__",
+                "        self = _up_(_cls_) if _up_ is object.__new__ else _up_(_cls_, *_a_, **_k_)",
                 f"        object.__setattr__(self, '_made_by', getattr(self, '_made_by', ()) + ({tag},))",
+                f"        object.__setattr__(self, '_got', getattr(self, '_got', ()) + (({tag}, _a_, tuple(sorted(_k_.items()))),))",
                 "        return self"]
+
+    def prop_def(tag, deps):
+        # a cached spec_property (not a managed attribute) that the listed attributes invalidate
+        names = [NAMES[n] for n in deps]
+        return [f"    @spec_property(cache=True, invalidated_by={names!r})",
+                f"    def p{tag}(self):",
+                f"        return ('p{tag}',) + tuple(getattr(self, n, '<unset>') for n in {names!r})"]
 
     parent = ""
     for i, c in enumerate(desc["classes"]):
@@ -84,6 +96,7 @@ def render(desc, eager):
         out.append(f"class C{i}({parent}):".replace("()", ""))
         parent = f"C{i}"
         body = []
+        inv = {int(n): deps for n, deps in c.get("inv") or []}
         if c.get("priv"):  # private annotation: not managed by spec-classes
             body.append("    _cache: dict = None")
         for n, form, dk, ini, rep, cmp_, typ in c["attrs"]:
@@ -105,8 +118,12 @@ def render(desc, eager):
                     kw.append("repr=False")
                 if not cmp_:
                     kw.append("compare=False")
+                if form == "attr" and inv.get(n):
+                    kw.append("invalidated_by=" + repr([NAMES[m] for m in inv[n]]))
                 ctor = "Attr" if form == "attr" else "dataclasses.field"
                 body.append(f"    {name}: {ann} = {ctor}({', '.join(kw)})")
+        if c.get("prop"):
+            body += prop_def(i, c["prop"])
         if c.get("new"):
             body += new_def(i)
         out += body or ["    pass"]
@@ -117,6 +134,8 @@ def render(desc, eager):
             out += ["    def describe(self):", "        return type(self).__name__"]
             if c["mid"].get("new"):
                 out += new_def(100 + i)
+            if c["mid"].get("prop"):
+                out += prop_def(100 + i, c["mid"]["prop"])
             out.append("")
             parent = f"M{i}"
             if c["mid"].get("deep"):  # two plain levels: the spec parent is not a direct base of anything lazy
@@ -127,7 +146,9 @@ def render(desc, eager):
         out.append(f"class PS(C{k - 1}):")
         if desc["sub"].get("new"):
             out += new_def(k)
-        else:
+        if desc["sub"].get("prop"):
+            out += prop_def(k, desc["sub"]["prop"])
+        if not (desc["sub"].get("new") or desc["sub"].get("prop")):
             out.append("    pass")
         out.append("")
     return "\n".join(out)
@@ -203,6 +224,74 @@ def kw_for(desc, tgt):
     return {names[n]: ([n, n + 1] if typ[n] == "list" else 40 + n) for n in sorted(ok) if ok[n]}
 
 
+def key_of(desc, tgt):
+    """(name, value to pass POSITIONALLY) of the key attribute visible in class tgt, or None"""
+    k = model_tgt(desc, tgt)
+    key = None
+    for c in desc["classes"][:k + 1]:
+        if c.get("key") is not None:
+            key = c["key"]
+    return None if key is None else (names_of(desc)[key], 70 + key)
+
+
+def visible_attrs(desc, tgt):
+    """[(index, type)] of the managed attributes visible in class tgt, in order of first declaration"""
+    k = model_tgt(desc, tgt)
+    typ = {}
+    for c in desc["classes"][:k + 1]:
+        for a in c["attrs"]:
+            typ[a[0]] = a[6]
+    return list(typ.items())
+
+
+def props_of(desc, tgt):
+    """[(property name, dependencies)] of the cached spec_property members visible in class tgt"""
+    k = model_tgt(desc, tgt)
+    out = []
+    for i, c in enumerate(desc["classes"][:k + 1]):
+        if c.get("prop"):
+            out.append((f"p{i}", c["prop"]))
+        m = c.get("mid")
+        if m and m.get("prop") and (i < k or tgt == f"m{i}" or tgt == "sub") and i + 1 < len(desc["classes"]):
+            out.append((f"p{100 + i}", m["prop"]))
+    if tgt == "sub" and (desc.get("sub") or {}).get("prop"):
+        out.append((f"p{len(desc['classes'])}", desc["sub"]["prop"]))
+    return out
+
+
+def mut_deps(desc, tgt):
+    """indices of the attributes visible in class tgt that invalidate something (an attribute declared
+    with Attr(invalidated_by=...) or a cached spec_property): the first MUTATION of an instance
+    generates the class's invalidation map (lazily generated metadata)"""
+    k = model_tgt(desc, tgt)
+    deps = []
+    for c in desc["classes"][:k + 1]:
+        for _, ds in c.get("inv") or []:
+            deps += ds
+    for _, ds in props_of(desc, tgt):
+        deps += ds
+    vis = dict(visible_attrs(desc, tgt))
+    return [n for n in sorted(set(deps)) if n in vis][:3]
+
+
+def kinds_for(desc, tgt, kinds):
+    """the use kinds that say something on class tgt: the positional forms need a key, `mutate`
+    needs an invalidation edge"""
+    out = []
+    for kind in kinds:
+        if kind in ("instpos", "instposkw") and key_of(desc, tgt) is None:
+            continue
+        if kind == "mutate" and not mut_deps(desc, tgt):
+            continue
+        out.append(kind)
+    return out
+
+
+def made(o, intern):
+    """which user-defined __new__ built the instance, and the arguments each of them was given"""
+    return [intern("m:" + repr(getattr(o, "_made_by", ()))), intern("g:" + repr(getattr(o, "_got", ())))]
+
+
 def describe_attrs(attrs, cmap, intern):
     from spec_classes.types import MISSING
     out = []
@@ -211,7 +300,7 @@ def describe_attrs(attrs, cmap, intern):
         out += [intern("n:" + str(name)), cmap.get(id(a.owner), -5), dk, int(bool(a.init)), int(bool(a.repr)),
                 int(bool(a.compare)), intern("t:" + str(a.type)), int(bool(a.is_masked)), int(bool(a.do_not_copy)),
                 intern("h:" + ",".join(sorted(getattr(m, "__name__", str(m)) for m in (a.helper_methods or ())))),
-                intern("d:" + repr(a.default))]
+                intern("d:" + repr(a.default)), intern("i:" + repr(sorted(a.invalidated_by or ())))]
     return out
 
 
@@ -229,7 +318,52 @@ def make_thunk(desc, classes, sub, use, cmap, intern):
     def inst():
         mark(("new", k))
         o = T()
-        return [intern("r:" + repr(o)), intern("m:" + repr(getattr(o, "_made_by", ())))]
+        return [intern("r:" + repr(o))] + made(o, intern)
+
+    def instpos():
+        # the key handed over POSITIONALLY: positional arguments travel through the lazy __new__
+        # hook (and every __new__ below it) before __init__ sees them
+        name, val = key_of(desc, tgt)
+        mark(("new", k))
+        o = T(val)
+        return [intern("r:" + repr(o))] + made(o, intern) + [intern("v:" + repr(getattr(o, name, "<unset>")))]
+
+    def instposkw():
+        name, val = key_of(desc, tgt)
+        kw = {n: v for n, v in kw_for(desc, tgt).items() if n != name}
+        mark(("new", k))
+        o = T(val, **kw)
+        return [intern("r:" + repr(o))] + made(o, intern) + [
+            intern("v:" + repr(sorted((n, getattr(o, n, "<unset>")) for n in [name] + list(kw))))]
+
+    def state(o):
+        names = names_of(desc)
+        vals = [(names[n], getattr(o, names[n], "<unset>")) for n, _ in visible_attrs(desc, tgt)]
+        vals += [(p, getattr(o, p, "<unset>")) for p, _ in props_of(desc, tgt)]
+        return intern("o:" + repr(vals))
+
+    def mutate():
+        # construct, give every attribute a non-default value (also fills the property caches), then
+        # change each dependency by with_<a> (copy) and finally in place: the dependants must be reset.
+        # The first mutation generates the invalidation map of type(o).
+        names = names_of(desc)
+        kw = kw_for(desc, tgt)
+        mark(("new", k))
+        o = T(**kw)
+        r = [intern("r:" + repr(o))] + made(o, intern)
+        for n, typ in visible_attrs(desc, tgt):
+            if names[n] not in kw:
+                setattr(o, names[n], [n, n + 2] if typ == "list" else 50 + n)
+        r.append(state(o))
+        vis = dict(visible_attrs(desc, tgt))
+        deps = mut_deps(desc, tgt)
+        for n in deps:
+            o2 = getattr(o, "with_" + names[n])([n, 9] if vis[n] == "list" else 90 + n)
+            r += [state(o2), int(o2 is o)]
+        for n in deps[:1]:
+            setattr(o, names[n], [n, 8] if vis[n] == "list" else 80 + n)
+            r.append(state(o))
+        return r
 
     def instkw():
         # the constructor's keyword form as FIRST use: the keywords travel through the lazy
@@ -237,14 +371,14 @@ def make_thunk(desc, classes, sub, use, cmap, intern):
         kw = kw_for(desc, tgt)
         mark(("new", k))
         o = T(**kw)
-        return [intern("r:" + repr(o)), intern("m:" + repr(getattr(o, "_made_by", ()))),
-                intern("v:" + repr(sorted((n, getattr(o, n, "<unset>")) for n in kw)))]
+        return [intern("r:" + repr(o))] + made(o, intern) + [
+            intern("v:" + repr(sorted((n, getattr(o, n, "<unset>")) for n in kw)))]
 
     def helper():
         a = helper_attr(desc, tgt)
         mark(("new", k))
         o = T()
-        r = [intern("r:" + repr(o)), intern("m:" + repr(getattr(o, "_made_by", ())))]
+        r = [intern("r:" + repr(o))] + made(o, intern)
         if a is not None and not desc["classes"][k].get("frozen_chain"):
             o2 = getattr(o, "with_" + a)(5)
             r += [intern("r:" + repr(o2)), int(o2 is o)]
@@ -284,7 +418,7 @@ def make_thunk(desc, classes, sub, use, cmap, intern):
         return [intern("dc:" + repr([(f.name, f.init, f.repr, f.compare) for f in fs]))] + later_lookups()
 
     return {"inst": inst, "instkw": instkw, "helper": helper, "meta": meta, "fields": fields,
-            "dcfields": dcfields}[kind]
+            "dcfields": dcfields, "instpos": instpos, "instposkw": instposkw, "mutate": mutate}[kind]
 
 
 def new_kind(cls):
@@ -372,11 +506,16 @@ def post_use(classes, sub, intern, desc=None):
             order += [(m, i) for i, m in sorted(getattr(classes, "mids", {}).items(), reverse=True)]
             order += [(classes[i], i) for i in range(k - 2, -1, -1)]
         for T, i in order:
-            kws = [{}] + ([kw_for(desc, i)] if desc is not None and kw_for(desc, i) else [])
-            for kw in kws:
+            kws = [((), {})] + ([((), kw_for(desc, i))] if desc is not None and kw_for(desc, i) else [])
+            if desc is not None and key_of(desc, i) is not None:
+                # the key handed over positionally as a LATER use (for a class no thread used: its first)
+                name, val = key_of(desc, i)
+                rest = {n: v for n, v in kw_for(desc, i).items() if n != name}
+                kws = [((val,), {})] + kws + ([((val,), rest)] if rest else [])
+            for pos, kw in kws:
                 try:
-                    o = T(**kw)
-                    out.extend([1, intern("r:" + repr(o)), intern("m:" + repr(getattr(o, "_made_by", ())))])
+                    o = T(*pos, **kw)
+                    out.extend([1, intern("r:" + repr(o))] + made(o, intern))
                     if hasattr(o, "describe"):
                         out.append(intern("d:" + repr(o.describe())))
                 except BaseException as e:  # noqa: BLE001
